@@ -892,6 +892,25 @@ pub fn run_history(ctx: &mut Ctx, src: &mut Source, seed: u64) -> Option<History
                     .map_or(false, |t| t.indexes.iter().any(|i| i.cols.len() > 1) || matches!(op, Op::CreateIndex { index, .. } if index.cols.len() > 1))
                     .to_string(),
             ),
+            (
+                // a composite index over a table holding a row with NULL in a later indexed column
+                // (the condition of KF-C10-03 / KF-C21-04), before or after this statement
+                "composite_null_row",
+                {
+                    let has = |t: &MTable, extra: Option<&IndexDef>| {
+                        t.indexes.iter().chain(extra).filter(|i| i.cols.len() > 1).any(|i| {
+                            i.cols[1..].iter().filter_map(|c| t.def.col_index(c)).any(|ci| t.rows.iter().any(|r| r[ci].is_null()))
+                        })
+                    };
+                    let extra = match op {
+                        Op::CreateIndex { index, .. } => Some(index),
+                        _ => None,
+                    };
+                    let before = tname.as_ref().and_then(|t| view_before.tables.get(t)).map_or(false, |t| has(t, extra));
+                    let after = tname.as_ref().and_then(|t| pred.new_view.as_ref().and_then(|v| v.tables.get(t))).map_or(false, |t| has(t, extra));
+                    (before || after).to_string()
+                },
+            ),
             ("rolled_back", rolled_back.to_string()),
             ("pred_on_toast_col", pred_on_toast_col(op, tname.as_ref().and_then(|t| view_before.tables.get(t))).to_string()),
         ];
